@@ -358,6 +358,17 @@ def search_rules(ctx, facts, rep):
                     good = True
     good = good or it_form
     ok &= rep.check(good, rule, "step", where(f, f.span), "pos decreases by exactly 1", "search step is not 1")
+    # nothing but the window, the signature and I/O results decides: a candidate position is accepted iff the four bytes there are the
+    # end-record signature (position 0 included: an empty archive IS its end record)
+    from engine.paths import paths as _paths, PathExplosion
+    try:
+        ps_ = _paths(f, max_loop=1, max_paths=20000)
+    except PathExplosion:
+        ps_ = []
+    KNOWN = (r"saturating_sub|^Lt\(ok\(Seek::seek\(reader, End\{0: 0\}\)\), 22\)$|^discr\(|^ok\(ReadBytesExt::read_u32\(reader\)\)$")
+    extra = sorted({a_[:80] for p_ in ps_ for a_, v_ in p_["decisions"] if a_ != "#iter" and not re.search(KNOWN, a_)})
+    ok &= rep.check(bool(ps_) and not extra, rule, "atoms", where(f, f.span), "only the search window, the signature comparison and I/O results decide",
+                    "the end-record search additionally branches on %s: some positions carrying a valid end record are skipped" % extra[:3])
     return ok
 
 
@@ -380,6 +391,26 @@ def names_rules(facts, rep):
         good = good and lens and nw.dominates(lens[0], push[0][0])
     ok &= rep.check(bool(good), rule, "index-before-push", where(nw, nw.span), "names_map.insert(name, files.len()) before files.push(file): later duplicates win",
                     "name index is not recorded as the position the entry is about to occupy")
+    # every record the directory parser returns is kept, whatever it contains (an empty name, a duplicate, a directory): the only
+    # things ZipArchive::new decides on are the end-record fields, the counted loop and I/O results
+    from engine.paths import paths as _paths, PathExplosion
+    try:
+        pn = _paths(nw, max_loop=1, max_paths=30000)
+    except PathExplosion:
+        pn = []
+    KN = (r"record_too_small\(|disk_number|^Gt\(ok\(read::get_directory_counts|^(Gt|Le|Lt|Ge)\(.*get_directory_counts.*cde|^Result::is_err\(Seek::seek|^discr\(Iterator::next\(|^discr\(Try::branch\(|"
+          r"^discr\(Seek::seek|^discr\(ok\(|^discr\(Result::map_err")
+    extra = sorted({a_[:80] for p_ in pn for a_, v_ in p_["decisions"] if a_ != "#iter" and not re.search(KN, a_)})
+    kept = True
+    for p_ in pn:
+        names_ = [e_[1] for e_ in p_["effects"]]
+        nparsed = sum(1 for (a_, v_) in p_["decisions"] if a_.startswith("discr(Try::branch(read::central_header_to_zip_file") and v_ == 0)
+        npush = sum(1 for n_ in names_ if re.search(r"Vec::<T(, A)?>::push$", n_))
+        nins = sum(1 for n_ in names_ if re.search(r"HashMap::<K, V, S(, A)?>::insert$", n_))
+        if nparsed != npush or nparsed != nins:
+            kept = False
+    ok &= rep.check(bool(pn) and kept and not extra, rule, "every-record-kept", where(nw, nw.span), "each successfully parsed central record is pushed and indexed; nothing else decides",
+                    "ZipArchive::new %s" % ("also branches on %s" % extra[:3] if extra else "has a path on which a parsed record is not pushed/indexed"))
     bn = facts.one(ZA + "by_name_with_optional_password$")
     ras = ret_alts(bn)
     good = any(((a[0] == "agg" and a[1] == "adt:Err") or a[0] == "errprop") and any(x[0] == "agg" and x[1] == "adt:FileNotFound" for x in walk(a)) and
